@@ -27,6 +27,7 @@ import (
 	old_faithful_grpc "github.com/rpcpool/yellowstone-faithful/old-faithful-proto/old-faithful-grpc"
 	"github.com/rpcpool/yellowstone-faithful/slottools"
 	solanatxmetaparsers "github.com/rpcpool/yellowstone-faithful/solana-tx-meta-parsers"
+	"github.com/rpcpool/yellowstone-faithful/third_party/solana_proto/confirmed_block"
 	"github.com/rpcpool/yellowstone-faithful/tooling"
 	"golang.org/x/sync/errgroup"
 	"google.golang.org/grpc"
@@ -709,6 +710,18 @@ func blockContainsAccounts(block *old_faithful_grpc.BlockResponse, accounts []st
 	return false
 }
 
+// transactionAccountKeys returns the accounts a transaction mentions: the static account keys of the message
+// followed by the address-table keys recorded in the status metadata. This is the account set the gsfa index
+// is built from and the one blockContainsAccounts looks at.
+func transactionAccountKeys(tx *solana.Transaction, meta any) []solana.PublicKey {
+	keys := append([]solana.PublicKey{}, tx.Message.AccountKeys...)
+	if m, ok := meta.(*confirmed_block.TransactionStatusMeta); ok && m != nil {
+		keys = append(keys, byteSlicesToKeySlice(m.LoadedReadonlyAddresses)...)
+		keys = append(keys, byteSlicesToKeySlice(m.LoadedWritableAddresses)...)
+	}
+	return keys
+}
+
 func (multi *MultiEpoch) StreamTransactions(params *old_faithful_grpc.StreamTransactionsRequest, ser old_faithful_grpc.OldFaithful_StreamTransactionsServer) error {
 	ctx := ser.Context()
 
@@ -758,16 +771,23 @@ func (multi *MultiEpoch) processSlotTransactions(
 			}
 		}
 
+		// tx.HasAccount knows only the static keys (and fails for a versioned message whose address tables
+		// have not been resolved), so the account filters would not agree with the gsfa index.
+		accountKeys := transactionAccountKeys(&tx, meta)
+		hasAccount := func(pkey solana.PublicKey) bool {
+			for _, key := range accountKeys {
+				if key.Equals(pkey) {
+					return true
+				}
+			}
+			return false
+		}
+
 		if !gsfaReadersLoaded && len(filter.AccountInclude) > 0 { // Only needed if gsfaReaders not loaded, otherwise handled in the main branch
 			hasOne := false
 			for _, acc := range filter.AccountInclude {
 				pkey := solana.MustPublicKeyFromBase58(acc)
-				ok, err := tx.HasAccount(pkey)
-				if err != nil {
-					klog.V(2).Infof("Failed to check if transaction %v has account %s", tx, acc)
-					return false
-				}
-				if ok {
+				if hasAccount(pkey) {
 					hasOne = true
 					break // Found at least one included account, no need to check others
 				}
@@ -779,24 +799,14 @@ func (multi *MultiEpoch) processSlotTransactions(
 
 		for _, acc := range filter.AccountExclude {
 			pkey := solana.MustPublicKeyFromBase58(acc)
-			ok, err := tx.HasAccount(pkey)
-			if err != nil {
-				klog.V(2).Infof("Failed to check if transaction %v has account %s", tx, acc)
-				return false
-			}
-			if ok { // If any excluded account is present, filter out the transaction
+			if hasAccount(pkey) { // If any excluded account is present, filter out the transaction
 				return false
 			}
 		}
 
 		for _, acc := range filter.AccountRequired {
 			pkey := solana.MustPublicKeyFromBase58(acc)
-			ok, err := tx.HasAccount(pkey)
-			if err != nil {
-				klog.V(2).Infof("Failed to check if transaction %v has account %s", tx, acc)
-				return false
-			}
-			if !ok { // If any required account is missing, filter out the transaction
+			if !hasAccount(pkey) { // If any required account is missing, filter out the transaction
 				return false
 			}
 		}
